@@ -371,4 +371,16 @@ def write_ev(pid, tier, seed, mod, results, validated, mismatches, confirmed, ne
 
 
 if __name__ == '__main__':
-    sys.exit(main())
+    try:
+        rc = main()
+    except SystemExit as e:
+        if isinstance(e.code, str):
+            print(e.code)
+            rc = 2
+        else:
+            rc = e.code
+    except Exception:       # an internal error is never a verdict
+        import traceback
+        print('INCONCLUSIVE: internal error of the checker: ' + traceback.format_exc()[-800:])
+        rc = 2
+    sys.exit(rc)
